@@ -503,6 +503,13 @@ func (nak *NotAKnotCubic) Fit(xs, ys []float64) error {
 		a.SetBand(m, m, 1/dxOuter)
 		a.SetBand(m, m-1, -1/dxOuter-1/dxInner)
 		a.SetBand(m, m-2, 1/dxInner)
+	} else {
+		// With a single interior node its not-a-knot condition leaves one degree of
+		// freedom (any cubic through the three points qualifies) and the last row of
+		// the system is empty. Choose the parabola through the points, i.e. a
+		// constant second derivative, as other implementations do.
+		a.SetBand(2, 1, -1)
+		a.SetBand(2, 2, 1)
 	}
 	x := mat.NewVecDense(n, nil)
 	err := x.SolveVec(a, b)
